@@ -1384,6 +1384,77 @@ def gen_headform(out):
 
 
 
+# ------------------------------------------------------------------------------------------------ transformers/head.py: Interval, IntervalSet, time ranges
+def gen_headranges(out):
+    flat = lambda t: '\n'.join(l.strip() for l in t.split('\n'))
+    T = parse('telingo/transformers/head.py')
+    cls = {n.name: n for n in ast.walk(T) if isinstance(n, ast.ClassDef)}
+    I = cls['Interval']
+    if method_src(I, '__init__') != ['self.left = left', 'self.right = right']:
+        raise Unsupported('Interval.__init__')
+    c = Ctx({'self_left': 'Z', 'self_right': 'Z', 'other_left': 'Z', 'other_right': 'Z', 'left': 'Z', 'right': 'Z'},
+            subst={'self.left': 'self_left', 'self.right': 'self_right', 'other.left': 'other_left', 'other.right': 'other_right'})
+    bf = find_fun(I, 'before')
+    if len(bf.body) != 1 or not isinstance(bf.body[0], ast.Return):
+        raise Unsupported('Interval.before')
+    lines = ['(* ---- telingo/transformers/head.py: Interval / IntervalSet and the time ranges of head formulas ---- *)',
+             'Definition interval_before_gen (self_right other_left : Z) : option bool := %s.' % boolx(c, bf.body[0].value)]
+    un = method_src(I, 'union')
+    if un != ['self.left = min(self.left, other.left)', 'self.right = max(self.right, other.right)']:
+        raise Unsupported('Interval.union: ' + repr(un))
+    lines.append('Definition interval_union_left_gen (self_left other_left : Z) : option Z := Some (Z.min self_left other_left).')
+    lines.append('Definition interval_union_right_gen (self_right other_right : Z) : option Z := Some (Z.max self_right other_right).')
+    em = find_fun(I, 'empty')
+    c2 = Ctx({'left': 'Z', 'right': 'Z'}, subst={'self.left': 'left', 'self.right': 'right'})
+    lines.append('Definition interval_empty_gen (left right : Z) : option bool := %s.' % boolx(c2, em.body[0].value))
+    S = cls['IntervalSet']
+    want = ['y = Interval(x[0], x[1])',
+            'if not y.empty():\n    i = 0\n    while i < len(self) and self.__elements[i].before(y):\n        i += 1\n    j = i\n    while j < len(self) and (not y.before(self.__elements[j])):\n        y.union(self.__elements[j])\n        j += 1\n'
+            '    if i == j:\n        self.__elements.insert(i, y)\n    else:\n        self.__elements[i:j] = (y,)']
+    if method_src(S, 'add') != want:
+        raise Unsupported('IntervalSet.add: ' + repr(method_src(S, 'add')))
+    if method_src(S, '__init__') != ['self.__elements = []', 'for x in elements:\n    self.add(x)']:
+        raise Unsupported('IntervalSet.__init__')
+    # ranges of the atoms of a head formula
+    TA = cls['TheoryAtomTransformer']
+    ar = flat(ast.unparse(find_fun(TA, '__add_range')))
+    for need in ('if a == 0:\n            return b', 'elif b == 0:\n            return a', "elif a == float('inf') or b == float('inf'):\n            return float('inf')",
+                 'elif isinstance(a, _Number) and isinstance(b, _Number):\n            return a + b', 'return (add(left, rng[0]), add(right, rng[1]))'):
+        if flat(need) not in ar:
+            raise Unsupported('__add_range: ' + need[:40])
+    vf = flat(ast.unparse(find_fun(TA, 'visit_TheoryFunction')))
+    for need in ("if x.name == '-':\n                self.__add_atom(x, rng)\n                return x", "elif x.name == '~':\n                return x",
+                 "if x.name == '>' or x.name == '>:':\n                if lhs is None:\n                    lhs = 1",
+                 'self(rhs, self.__add_range(x.location, rng, lhs, lhs))',
+                 "if x.name == '>?' or x.name == '>*' or x.name == '>>':\n                    rng_left = self.__add_range(x.location, rng, 0, float('inf'))\n                    rng_right = rng_left",
+                 "elif x.name == ';>' or x.name == ';>:':\n                    rng_right = self.__add_range(x.location, rng, 1, 1)",
+                 'if is_binary:\n                    self(lhs, rng_left)\n                self(rhs, rng_right)', 'rng_left, rng_right = (rng, rng)'):
+        if flat(need) not in vf:
+            raise Unsupported('TheoryAtomTransformer.visit_TheoryFunction: ' + need[:50])
+    el = flat(ast.unparse(find_fun(TA, 'visit_TheoryAtomElement')))
+    if 'x.terms[0] = self(x.terms[0], (0, 0))' not in el:
+        raise Unsupported('visit_TheoryAtomElement start range')
+    lines.append('Definition range_next_gen : cnt * cnt := (NArg, NArg).                (* n > phi: both bounds grow by the count (1 for the unary form) *)')
+    lines.append('Definition range_until_gen : nat * option nat := (0, None).          (* >? >* >>: unbounded above, for both operands *)')
+    lines.append('Definition range_seq_right_gen : nat * option nat := (1, Some 1).     (* ;> ;>: : the right operand one state later *)')
+    tt = flat(ast.unparse(find_fun(T, 'transform_theory_atom')))
+    for need in ('numeric.setdefault(atm, (atm, IntervalSet()))[1].add((lhs, rhs + 1))', 'for lhs, rhs in rngs:\n            add(atm, lhs, rhs - 1)'):
+        if flat(need) not in tt:
+            raise Unsupported('transform_theory_atom: ' + need[:40])
+    ht = flat(ast.unparse(find_fun(cls['HeadTransformer'], 'transform')))
+    for need in ('diff = _ast.BinaryOperation(loc, _ast.BinaryOperator.Minus, param, shift)',
+                 'if lhs.ast_type != _ast.ASTType.SymbolicTerm or lhs.symbol.type != _clingo.SymbolType.Number or lhs.symbol.number > 0:',
+                 'cond.append(_ast.Literal(loc, _ast.Sign.NoSign, _ast.Comparison(lhs, [_ast.Guard(_ast.ComparisonOperator.LessEqual, diff)])))',
+                 'if rhs.ast_type != _ast.ASTType.SymbolicTerm or rhs.symbol.type != _clingo.SymbolType.Supremum:',
+                 'cond.append(_ast.Literal(loc, _ast.Sign.NoSign, _ast.Comparison(diff, [_ast.Guard(_ast.ComparisonOperator.LessEqual, rhs)])))',
+                 'rules.append(_ast.Rule(loc, _ast.Disjunction(loc, elems), [saux, false]))'):
+        if flat(need) not in ht:
+            raise Unsupported('HeadTransformer.transform: ' + need[:50])
+    lines.append('Definition domain_rule_bounds_gen : bool := true.     (* lo <= __t - __S (omitted when lo = 0) and __t - __S <= hi (omitted when unbounded) *)')
+    out.append('\n'.join(lines))
+
+
+
 # ------------------------------------------------------------------------------------------------ main
 # group -> (generated file under coq/Gen, fragment functions, Requires)
 GROUPS = {
@@ -1395,6 +1466,7 @@ GROUPS = {
     'dynamic': ('FromDynamic.v', [gen_dynamic], ['GenPrelude', 'TheoryPrelude', 'DynPrelude']),
     'bodyform': ('FromBodyForm.v', [gen_bodyform], ['GenPrelude', 'TheoryPrelude', 'FormPrelude']),
     'headform': ('FromHeadForm.v', [gen_headform], ['GenPrelude', 'TheoryPrelude', 'FormPrelude']),
+    'headranges': ('FromHeadRanges.v', [gen_headranges], ['GenPrelude', 'TheoryPrelude', 'FormPrelude']),
 }
 VERIF = os.path.dirname(os.path.dirname(os.path.abspath(__file__)))
 GEN = os.path.join(VERIF, 'coq', 'Gen')
